@@ -31,8 +31,11 @@ TEXTS = {
                      '(2) normalize_doc, all eight normalize methods and the lazy FlatChoice accessors preserve den (and wf, hlsafe, '
                      'reachability of always_break, the normal-form classification) - Concat.normalize and Fill.normalize with loop '
                      'invariants; (3) termination; no raise-path. Scope of the proof: documents satisfying hlsafe / fillclean (no literal '
-                     'hard line in the flat rendering of a group or fill item; no NIL fill item) - outside it one known finding. The '
-                     'renderer clause (only trailing blanks trimmed) and the carved shapes are decided by the bounded reference matcher.',
+                     'hard line in the flat rendering of a group or fill item; no NIL fill item) - outside it one known finding. (4) align: the '
+                     'evaluator returns Nest(column - indent, doc), so breaks inside align(doc) are indented to the column where it starts; '
+                     '(5) the renderer clause: default_render_to_stream writes the texts and line breaks in order, only the trailing blanks of '
+                     'the last text of a line trimmed (family render). The carved shapes are decided by the bounded reference matcher, which '
+                     'renders align from the statement (indentation := column), not through the library evaluator.',
                 note=_ENC + 'assumed: contextual functions pure, size-bounded, returning hlsafe/fillclean/flatok documents (lemma_apply_ctx, '
                      'lemma_ctx_ok); normalize_doc deterministic on document values and FlatChoice cache mutation invisible (value '
                      'semantics); existence of an oracle agreeing with the recorded decisions (indices are distinct: meta-argument); '
@@ -113,10 +116,17 @@ TEXTS = {
                 note=_ENC + 'singledispatch is modelled (first direct entry along the MRO; base printer under object; no ABC virtual subclasses, '
                             'no dispatch cache); distinct classes have distinct qualified names; registered wrappers are identified with their '
                             'printers; the quantified invariant "every pending by-name printer accepts (value, ctx)" is used through instances.'),
-    'C16': dict(category='other', engine='bounded', technique='frame obligations decided by effect analysis over the ast of the real source (one obligation per mutation site, module-level mutable binding, global rebinding, memoising decorator, id() call, settings flow); ' + _BOUNDED + ' (styles x tokens exhaustive)',
-                text='Proved on the source (frame): the colour cache of the colored renderer is local to the call, the only non-local writes are the stream and the palette. Exhaustive for the finite quantifier styles x tokens (52 x 14 x 3 color modes); bounded for values and for annotated documents '
-                     '(token annotations nested to depth 3 with non-token annotations anywhere): stripped text equals plain text, per-character style, reset at the end.',
-                note='own SGR state machine as oracle; colorful/pygments trusted.'),
+    'C16': dict(category='proof', engine='pyvc+bounded', technique=_PYVC + '; frame obligations decided by effect analysis over the ast of the real source; ' + _BOUNDED + ' (styles x tokens exhaustive)',
+                text='Proved for all inputs from the source of color.py / render.py (family render, 262 obligations), for every sdoc stream, style, '
+                     'newline and separator, with the stream as the sequence of pieces written to it: what colored_render_to_stream writes, with '
+                     'the style pieces removed, is exactly what default_render_to_stream writes (both equal put_lines(lines with the trailing blanks '
+                     'of the last text trimmed)); at every moment the style in effect is the color on top of the color stack - the innermost open '
+                     'syntax token - or the reset state, so the enclosing style is restored when an inner token ends; the stack holds exactly one '
+                     'color per open syntax token (annotations that are not tokens neither push nor pop); the stream ends in the reset state; no '
+                     'exception escapes. Bounded-exhaustive (not counted as proved): every syntax token x every pygments style renders, the ANSI '
+                     'structure of str(color), stripped cpprint == pformat on 94 values x configurations, per-character styles.',
+                note=_ENC + 'as_lines, rfind_idx and str.rstrip are shared by both renderers and uninterpreted; the color of a token (style lookup, '
+                            'cache) is not part of the proved statement.'),
     'C17': dict(category='other', engine='bounded', technique=_BOUNDED,
                 text='Bounded: pretty_call / pretty_call_alt argument lists (all with <= 1 argument, random up to 4+3) and generated dataclass / attrs '
                      'class definitions (all with <= 1 field, random up to 3-4) x instances x configurations: callee, argument order, field selection, eval.',
